@@ -7,8 +7,10 @@
    ancestors-only state is the worst case; hand-written graphs shaped like meson output with a deliberately
    missing edge must make TLC report the named invariant (vacuity guard), their repaired twins must pass.
 2. (B) generated projects (``c05_projects``: generated headers, generators, custom-target chains, built
-   tools, link_with / link_whole / extract_objects, declare_dependency(sources:), depends: / depend_files:,
-   link_depends, subdirs, subprojects; plus ``projgen`` random projects whose generated headers are really
+   tools, link_with / link_whole / extract_objects, declare_dependency(sources:) also nested three / four levels,
+   depends: / depend_files: / depfile:, link_depends, subdirs, subprojects, programs that find_program() maps to built
+   executables behind every depends:-like and program-like route of generator / custom_target / run_target / test /
+   benchmark - for the last two `ninja test` / `ninja benchmark` are statements of the graph; plus ``projgen`` random projects whose generated headers are really
    included) are configured by the real ``meson setup``; build.ninja is read by ``ninja_ref`` and executed
    by the reference executor ``c05_exec`` once with every statement under strace (reads / failed probes /
    writes), then from scratch under three adversarial schedules (deepest-last, reverse declaration order,
@@ -30,7 +32,7 @@ import sys
 import threading
 import time
 import typing as T
-from concurrent.futures import ProcessPoolExecutor
+from concurrent.futures import ProcessPoolExecutor, ThreadPoolExecutor
 from pathlib import Path
 
 from . import c05_exec as X
@@ -45,11 +47,14 @@ STATIC_CLAUSES = ('Stuck', 'UniqueProducer', 'Hermetic', 'StableProbe', 'NoUndec
 
 # hand-written graphs of BuildSched_MC: number -> invariant TLC must report (None = must pass)
 HAND = {1: 'InvHermetic', 2: None, 3: 'InvHermetic', 4: None, 5: 'InvHermetic', 6: None, 7: 'InvStableProbes',
-        8: 'InvNoUndeclaredWrite'}
+        8: 'InvNoUndeclaredWrite', 9: 'InvHermetic', 10: None, 11: 'InvHermetic', 12: None}
 HAND_NAMES = {1: 'compile without order-only dep on generated header', 2: 'same, with the dep',
               3: 'custom-target chain without depends', 4: 'same, with depends', 5: 'link without the static library as input',
               6: 'same, with the library', 7: 'optional generated file probed by an unordered step',
-              8: 'step writes an undeclared file'}
+              8: 'step writes an undeclared file',
+              9: 'generator step executes a built plugin named only in depends: (as an overridden find_program), no edge',
+              10: 'same, with the implicit input', 11: 'the test step reads generated data missing from meson-test-prereq',
+              12: 'same, with the data listed'}
 MC_INVARIANTS = ('TypeOK', 'DeclImpliesBehavioural', 'BehaviouralImpliesDecl', 'CompleteIsConfluent', 'IncompleteShows',
                  'EndsInFixpoint', 'CompiledFormAgrees')
 
@@ -67,15 +72,17 @@ def _mc_cfg(ne: int, probes: bool, hand: int, invariants: T.Sequence[str], src: 
 def model_check(chk: Check, quick: bool, out: T.Dict[str, T.Any]) -> None:
     """Runs in a thread next to the project executions."""
     laws = ('InvHermetic', 'InvStableProbes', 'InvNoUndeclaredWrite', 'InvConfluent')
-    # every 3-statement graph with reads (32,768 graphs); thorough: also every 3-statement graph over generated
-    # inputs only with reads and failed probes (46,656 graphs)
-    out['family'] = run_tlc(FAM, 'BuildSched_MC', cfg_text=_mc_cfg(3, False, 0, MC_INVARIANTS), timeout=3000,
-                            workers=8, allow_violation=False)
-    if not quick:
-        out['family_probes'] = run_tlc(FAM, 'BuildSched_MC', cfg_text=_mc_cfg(3, True, 0, MC_INVARIANTS, src=False),
-                                       timeout=3000, workers=8, allow_violation=False)
     hand: T.Dict[int, T.Any] = {}
-    for k, want in HAND.items():
+
+    def one_hand(k: int) -> None:
+        if k == 0:
+            # Confluent alone must bite as well (graph 1: the compile that ran before the header sees a different view)
+            r = run_tlc(FAM, 'BuildSched_MC', cfg_text=_mc_cfg(3, False, 1, ('InvConfluent',)), timeout=600, workers=1)
+            if r.invariant_violated != 'InvConfluent':
+                raise MachineryError('vacuity guard: InvConfluent did not fail on the graph with the missing header dependency')
+            hand[0] = r
+            return
+        want = HAND[k]
         r = run_tlc(FAM, 'BuildSched_MC', cfg_text=_mc_cfg(3, False, k, laws + ('TypeOK', 'DeclImpliesBehavioural',
                                                                                     'BehaviouralImpliesDecl')),
                     timeout=600, workers=1, coverage=(k == 2))
@@ -83,11 +90,20 @@ def model_check(chk: Check, quick: bool, out: T.Dict[str, T.Any]) -> None:
             raise MachineryError(f'vacuity guard: hand-written graph {k} ({HAND_NAMES[k]}) expected '
                                  f'{want or "no violation"}, TLC says {r.invariant_violated or "clean"}\n' + r.stdout[-1500:])
         hand[k] = r
-    # Confluent alone must bite as well (graph 1: the compile that ran before the header sees a different view)
-    r = run_tlc(FAM, 'BuildSched_MC', cfg_text=_mc_cfg(3, False, 1, ('InvConfluent',)), timeout=600, workers=1)
-    if r.invariant_violated != 'InvConfluent':
-        raise MachineryError('vacuity guard: InvConfluent did not fail on the graph with the missing header dependency')
-    hand[9] = r
+
+    # the hand-written graphs are small single-worker runs: one after the other next to the exhaustive family
+    with ThreadPoolExecutor(max_workers=1) as tp:
+        futs = [tp.submit(one_hand, k) for k in list(HAND) + [0]]
+        # every 3-statement graph with reads (32,768 graphs); thorough: also every 3-statement graph over generated
+        # inputs only with reads and failed probes (46,656 graphs)
+        out['family'] = run_tlc(FAM, 'BuildSched_MC', cfg_text=_mc_cfg(3, False, 0, MC_INVARIANTS), timeout=3000,
+                                workers=8, allow_violation=False)
+        if not quick:
+            out['family_probes'] = run_tlc(FAM, 'BuildSched_MC', cfg_text=_mc_cfg(3, True, 0, MC_INVARIANTS, src=False),
+                                           timeout=3000, workers=8, allow_violation=False)
+        for f in futs:
+            f.result()
+    hand = {k: hand[k] for k in list(HAND) + [0]}
     out['hand'] = hand
 
 
@@ -135,7 +151,7 @@ def run_project(job: T.Dict[str, T.Any]) -> T.Dict[str, T.Any]:
             info['skipped'] = 'meson setup failed: ' + r.error_text
             info['setup_failed'] = True
             return case
-        g = X.Graph(build, src)
+        g = X.Graph(build, src, keep=X.KEEP_TESTS if PJ.tests_in_scope(p) else ())
         if g.n == 0:
             info['skipped'] = 'no statement in scope'
             return case
@@ -291,6 +307,10 @@ def signature(c: T.Dict[str, T.Any], v: T.Dict[str, T.Any]) -> str:
         rule = info['rules'][e - 1]
         out0 = info['outs'][e - 1][0]
         where = fam or PJ.block_of(out0)
+        if not fam and PJ.role_of(out0):
+            where += ':' + PJ.role_of(out0)
+        elif where == '-' and v['paths']:   # a project-wide statement (ninja test): the blocks / routes of what it lacks
+            where = '+'.join(sorted({PJ.block_of(q) + (':' + PJ.role_of(q) if PJ.role_of(q) else '') for q in v['paths']}))
         return f"{v['clause']}:{rule}{ext_class(out0)}<-{','.join(classes) or 'other'}@{where}"
     where = fam or '+'.join(sorted({PJ.block_of(q) for q in v['paths']}))
     return f"{v['clause']}:{v['run'] or '-'}:{','.join(classes) or 'other'}@{where}"
@@ -369,10 +389,17 @@ def judge_and_report(chk: Check, cases: T.List[T.Dict[str, T.Any]], label: str, 
 # ---------------------------------------------------------------------------
 
 
-# quick tier: every block kind once; (kind, variant) with variant None = seeded choice
-QUICK_PLAN = [[('hdr', 3), ('chain', None)], [('dep', None), ('script', 0), ('conf', 0)], [('gen', 1), ('ctlib', 0), ('pair', 0)],
+# quick tier: every block kind once; (kind, variant) with variant None = seeded choice, a tuple = seeded choice among
+QUICK_PLAN = [[('hdr', 3), ('chain', None)], [('dep', None), ('script', 0), ('conf', 0)], [('gen', 2), ('ctlib', 0), ('pair', 0)],
               [('tool', None), ('run', 0), ('pair', 3)], [('link', None)], [('subproj', None), ('hdr', 4), ('pair', 2)],
-              [('unity', None), ('privhdr', 0)]]
+              [('unity', None), ('privhdr', 0)],
+              # what steps execute: a program that find_program() maps to a built executable (own / subproject's), and a
+              # built executable, script or custom-target index, each behind every depends:-like and program-like route
+              [('prog', (1, 2))], [('prog', (3, 4))],
+              # ninja test / ninja benchmark in scope: what tests execute and read (depends:, args:, the test program)
+              [('tprog', (0, 1))],
+              # declare_dependency() chains three / four levels deep (sources:, link_with:, objects:)
+              [('dchain', None)]]
 
 
 def make_jobs(chk: Check, quick: bool) -> T.List[T.Dict[str, T.Any]]:
@@ -387,7 +414,7 @@ def make_jobs(chk: Check, quick: bool) -> T.List[T.Dict[str, T.Any]]:
                  'opts': {'default_library': rnd.choice(['shared', 'static', 'both']), 'unity': rnd.choice(['off', 'off', 'on']),
                           'buildtype': rnd.choice(['debug', 'release'])},
                  'blocks': [{'kind': kind, 'n': j + 1, 'sub': kind not in ('subproj', 'unity') and rnd.random() < 0.4,
-                             'v': rnd.randrange(PJ.VARIANTS[kind]) if v is None else v}
+                             'v': (rnd.randrange(PJ.VARIANTS[kind]) if v is None else rnd.choice(v) if isinstance(v, tuple) else v)}
                             for j, (kind, v) in enumerate(QUICK_PLAN[k])]}
         else:
             p = PJ.random_shape(rnd, must=PJ.KINDS[k % len(PJ.KINDS)])
@@ -418,7 +445,7 @@ def account(chk: Check, cases: T.List[T.Dict[str, T.Any]]) -> None:
 
 def main(chk: Check) -> None:
     quick = chk.tier == 'quick'
-    chk.rule = ('B: generated projects (1-3 feature blocks out of 14 kinds, or a projgen random project of 5-9 targets) configured '
+    chk.rule = ('B: generated projects (1-3 feature blocks out of 17 kinds, or a projgen random project of 5-9 targets) configured '
                 'by the real meson, every build statement executed under strace, 3 adversarial real schedules and one hermetic '
                 'replay per statement; TLC judges each record and explores every schedule of every recorded graph. '
                 'Non-trivial = a graph with >= 8 statements in which statements read >= 3 files generated by other statements '
@@ -438,7 +465,7 @@ def main(chk: Check) -> None:
     jobs = make_jobs(chk, quick)
     results: T.List[T.Dict[str, T.Any]] = []
     try:
-        with ProcessPoolExecutor(max_workers=max(2, min(10, common.NCPU * 5 // 8))) as ex:
+        with ProcessPoolExecutor(max_workers=max(2, min(12, common.NCPU * 3 // 4))) as ex:
             for case in ex.map(run_project, jobs, chunksize=1):
                 results.append(case)
     finally:
@@ -480,8 +507,13 @@ def main(chk: Check) -> None:
         'Needs/Writes are observational: what each command opened, stat-ed or executed (strace -f) in one successful run',
         'build.ninja is read by harness/ninja_ref.py and executed by harness/c05_exec.py (no ninja binary exists here); '
         'depfile / restat / pools do not influence a from-scratch build and are not modelled',
-        'utility statements (test, install, dist, clean, reconfigure, build.ninja regeneration) are out of scope; phony '
-        'statements without inputs count as always-present paths',
+        'utility statements (install, dist, clean, reconfigure, build.ninja regeneration; test / benchmark except in '
+        'projects with a tprog block, where they run `meson test --no-rebuild` and may write meson-logs/testlog.* / '
+        'benchmarklog.*) are out of scope; phony statements without inputs count as always-present paths',
+        'a custom-target index used as the command itself of a custom_target / run_target in the top-level build directory '
+        'is written as a bare file name (not runnable under any schedule): only generated inside a subdirectory',
+        'vs_module_defs: from a custom target is not generated: the GNU linker line does not read the file on this '
+        'platform, so a lost edge is not observable through reads',
         'all runs of one project happen at the same absolute build path one after the other (build.ninja embeds absolute '
         'paths); only C with gcc, layout=mirror',
         'graphs with more prefix-closed statement sets than the tier cap are judged by the declarative form only '
